@@ -8,7 +8,6 @@ require (
 	github.com/mdlayher/metricslite v0.0.0-20220406114248-d75c70dd4887
 	github.com/mdlayher/ndp v1.1.0
 	github.com/mdlayher/netlink v1.7.2
-	github.com/mdlayher/schedgroup v1.0.0
 	github.com/mdlayher/sdnotify v1.0.0
 	github.com/pelletier/go-toml v1.9.5
 	github.com/prometheus/client_golang v1.19.0
